@@ -31,6 +31,17 @@ func (x *Exec) initialState(fn *ssa.Function) (*State, []Value) {
 		for k, lf := range lay.Leaves {
 			x.inputs = append(x.inputs, NamedTerm{Name: p.Name() + lf.Path, T: v.L[k]})
 		}
+		if sl, ok := p.Type().Underlying().(*types.Slice); ok && x.Opt.ModelElems {
+			// name the first elements so that a counterexample can be rebuilt as a Go literal
+			if el := LayoutOf(sl.Elem()); len(el.Leaves) == 1 && el.Leaves[0].Role == "" && el.Leaves[0].Sort.Kind != SUninterp {
+				arr := c.Select(x.comp(st, sliceComp(sl.Elem(), 0), el.Leaves[0].Sort), v.L[0])
+				for e := int64(0); e < 8; e++ {
+					ec := c.Fresh(fmt.Sprintf("in$%s$e%d", p.Name(), e), el.Leaves[0].Sort)
+					x.assume(st, c.Eq(ec, c.Select(arr, c.BVBin("bvadd", v.L[1], c.BVI(e, 64)))))
+					x.inputs = append(x.inputs, NamedTerm{Name: fmt.Sprintf("%s[%d]", p.Name(), e), T: ec})
+				}
+			}
+		}
 		args = append(args, v)
 	}
 	return st, args
@@ -64,7 +75,11 @@ func (x *Exec) VerifyLemma(fn *ssa.Function) (err error) {
 		for i, p := range fn.Params {
 			env.vars[p.Name()] = args[i]
 		}
-		for _, r := range ct.Requires {
+		reqs := ct.Requires
+		if x.Opt.InlineAll && len(ct.Falsify) > 0 {
+			reqs = ct.Falsify
+		}
+		for _, r := range reqs {
 			x.assume(st, env.evalBool(r.Expr))
 		}
 		fr.entry = st.snapshot()
